@@ -1,6 +1,7 @@
 import S3V.Props.C11
 /-!
-# C11 — kernel-checked counterexamples for the region excluded by `C11.WF` (outside the pass/fail gate)
+# C11 — kernel-checked counterexamples for the regions excluded by `C11.WF` / `C11.WFV`, and regression
+facts for the repaired classes (outside the pass/fail gate)
 
 Each witness is also a line of `corpus/sigv2.txt` / `corpus/sigv2e2e.txt` and is replayed on the real
 code by every run (`known_findings.d/sigv2.json`).
@@ -41,17 +42,37 @@ theorem C11_counterexample_xamzdate_repeated :
     stsSpec .header rXAmzDateTwice = sp!"GET\n\n\n\nx-amz-date:A,B\n/bkt/k" ∧
     ¬ C11.WF .header rXAmzDateTwice := by decide +kernel
 
-/-- finding `expires-out-of-range` (corpus `w-presign-expires-year-10000`): the second after
-    9999-12-31T23:59:59Z is refused by `PresignedUrlV2::parse`, the specification reads the credentials -/
+/-- repaired by 89d0d71 (was finding `expires-out-of-range`, corpus `w-presign-expires-year-10000`): the
+    second after 9999-12-31T23:59:59Z used to be refused by `PresignedUrlV2::parse`; now the credentials
+    are read as the specification reads them and the expiry is held as the last instant the clock can show -/
 def qYear10000 : Pairs :=
   [(sp!"AWSAccessKeyId", sp!"AK"), (sp!"Signature", sp!"c2ln"), (sp!"Expires", sp!"253402300800")]
 
-theorem C11_counterexample_expires_out_of_range :
-    parsePresigned (sortByFirst qYear10000) = none ∧
+theorem C11_repaired_expires_out_of_range :
+    parsePresigned (sortByFirst qYear10000) = some ⟨sp!"AK", maxDateTimeNs, sp!"c2ln"⟩ ∧
     SigV2Spec.credentials ⟨sp!"GET", [], sp!"/bkt/k", qYear10000, none⟩ =
-      some ⟨.query, sp!"AK", sp!"c2ln", some 253402300800⟩ := by decide +kernel
+      some ⟨.query, sp!"AK", sp!"c2ln", some 253402300800⟩ ∧
+    C11.WFV ⟨sp!"GET", [], sp!"/bkt/k", qYear10000, none⟩ := by decide +kernel
 
-/-- repaired (was finding `signature-double-encoded`, corpus `w-presign-signature-double-encoded`): the
+/-- the same for a number of seconds beyond `i64` (generator tag `expires-i64-overflow`), while a text that
+    only starts like one is still refused -/
+theorem C11_repaired_expires_beyond_i64 :
+    parseUnixTimestamp (sp!"9223372036854775808") = some maxDateTimeNs ∧
+    parseUnixTimestamp (sp!"+99999999999999999999999") = some maxDateTimeNs ∧
+    parseUnixTimestamp (sp!"253402300799") = some 253402300799000000000 ∧
+    parseUnixTimestamp (sp!"99999999999999999999999x") = none ∧
+    parseUnixTimestamp (sp!"-99999999999999999999999") = none := by decide +kernel
+
+/-- and the verdict on the year-10000 URL is the specification's, for every MAC, credential table and clock
+    reading in the range of the clock: the request is inside the region of `C11_verdict_iff_spec_partial`
+    (it was excluded before the repair) -/
+theorem C11_repaired_expires_out_of_range_verdict (hmac : Bytes → Bytes → Bytes) (b64 : Bytes → Bytes)
+    (lookup : Bytes → Option Bytes) (nowNs : Int) (ak : Bytes) (hnow : 0 ≤ nowNs) (hclock : nowNs ≤ maxDateTimeNs) :
+    check hmac b64 lookup nowNs (ctxOf ⟨sp!"GET", [], sp!"/bkt/k", qYear10000, none⟩) = .accept ak ↔
+      SigV2Spec.Accepts hmac b64 lookup nowNs ⟨sp!"GET", [], sp!"/bkt/k", qYear10000, none⟩ ak :=
+  C11.C11_verdict_iff_spec_partial hmac b64 lookup nowNs _ ak hnow hclock (by decide +kernel)
+
+/-- repaired by 9d7ab72 (was finding `signature-double-encoded`, corpus `w-presign-signature-double-encoded`): the
     value `ab%3D` (what `Signature=ab%253D` decodes to) is compared as it stands, as the specification
     reads it — it used to be percent-decoded a second time and compared as `ab=` -/
 def qDoubleEncoded : Pairs :=
@@ -66,20 +87,21 @@ theorem C11_repaired_signature_double_encoded :
 /-- and the verdict on it is the specification's, for every MAC, credential table and clock: the request
     is inside the region of `C11_verdict_iff_spec_partial` (it was excluded before the repair) -/
 theorem C11_repaired_signature_double_encoded_verdict (hmac : Bytes → Bytes → Bytes) (b64 : Bytes → Bytes)
-    (lookup : Bytes → Option Bytes) (nowNs : Int) (ak : Bytes) (hnow : 0 ≤ nowNs) :
+    (lookup : Bytes → Option Bytes) (nowNs : Int) (ak : Bytes) (hnow : 0 ≤ nowNs) (hclock : nowNs ≤ maxDateTimeNs) :
     check hmac b64 lookup nowNs (ctxOf ⟨sp!"GET", [], sp!"/bkt/k", qDoubleEncoded, none⟩) = .accept ak ↔
       SigV2Spec.Accepts hmac b64 lookup nowNs ⟨sp!"GET", [], sp!"/bkt/k", qDoubleEncoded, none⟩ ak :=
-  C11.C11_verdict_iff_spec_partial hmac b64 lookup nowNs _ ak hnow (by decide +kernel)
+  C11.C11_verdict_iff_spec_partial hmac b64 lookup nowNs _ ak hnow hclock (by decide +kernel)
 
-/-- so the full verdict statement is false of the model: a presigned URL for the first second of year
-    10000, correctly "signed" for the constant MAC, is accepted by the specification and refused by the
-    code -/
+/-- the full verdict statement is still false of the model, because of the open finding
+    `xamzdate-repeated`: a header-authenticated request that carries x-amz-date twice (and no Date),
+    correctly "signed" for the constant MAC, is accepted by the specification (it has a time stamp) and
+    refused by the code ("missing date": `get_unique` gives `None` for the repeated header) -/
 theorem C11_verdict_iff_spec_full_false : ¬ C11.C11_verdict_iff_spec_full := by
   intro h
   have h1 := h (fun _ _ => []) id (fun _ => some []) 0
-    ⟨sp!"GET", [], sp!"/bkt/k",
-      [(sp!"AWSAccessKeyId", sp!"AK"), (sp!"Signature", []), (sp!"Expires", sp!"253402300800")], none⟩
-    (sp!"AK") (by decide) (by decide +kernel)
+    ⟨sp!"GET", [(sp!"x-amz-date", sp!"A"), (sp!"x-amz-date", sp!"B"), (sp!"Authorization", sp!"AWS AK:")],
+      sp!"/bkt/k", [], none⟩
+    (sp!"AK") (by decide) (by decide) (by decide +kernel)
   rw [← C11.C11_reference_is_spec] at h1
   revert h1
   decide +kernel
